@@ -7,6 +7,10 @@ BASE = json.load(open("/root/.vp/BASELINE.json"))["cmd"] if Path("/root/.vp/BASE
     "cd /repo && /venv/bin/python -m pytest -ra -q -p no:cacheprovider --timeout=900 --continue-on-collection-errors --junitxml=<file>"
 
 CHECKS = {
+ "C11": dict(cat="exploration", ref="§C11",
+    tech="bounded-exhaustive enumeration of small XML trees + property-based testing (Hypothesis) of larger ones; oracles = reference AnyElement image from an independent libxml2 parse, canonical-infoset round trip through both writers, reference model of the wildcard namespace keywords",
+    text="All trees with 1 node (full alphabet), 2 nodes (medium) and 3 nodes (reduced) plus generated trees up to depth 6 are parsed by TreeParser and inside typed models with single/list/mixed/choice wildcards under every namespace constraint, by both handlers; the bound generic tree must equal the documented image, serialization must reproduce the input infoset, and admissibility must follow the namespace keyword semantics. Exhaustive for the enumerated sub-domains, searched elsewhere.",
+    note="Attribute values avoid the documented prefix expansion; xsi:type'd primitives (incl. locally declared and re-bound prefixes) are a labelled sub-check; numeric datatype narrowing (xs:int -> xs:short) is tolerated as documented."),
  "C15": dict(cat="fault_enumeration", ref="§C15",
     tech="fault enumeration over generated valid documents (Hypothesis supplies models/instances; faults are enumerated: truncation at every offset, byte flips, per-element structural edits, per-value hostile replacements, xsi:type/nil corruption, prefix/root faults, appended/prepended junk, random bytes; JSON shape replacement/deletion/truncation/flips), with and without parser reuse; oracle = allowed outcome set + two-parser (libxml2, expat) malformedness agreement for the pure-Python handler",
     text="Every enumerated single-point fault of every generated document must end in an instance of the requested class or in ParserError/ConverterError/XmlContextError/XmlHandlerError within the time bound, for the lxml handler, the pure-Python handler, JsonParser and DictDecoder; documents that libxml2 (strict) and expat both reject must be rejected by the pure-Python handler. Truncation is exhaustive per document; the other families are enumerated at a generated stride.",
